@@ -189,7 +189,8 @@ def _collect_unevaluated(expr, found: dict):
 class Compiled:
     """Vectorised numpy evaluation of a list of expressions (row-major matrix entries)."""
 
-    def __init__(self, exprs, shape, route: str) -> None:
+    def __init__(self, exprs, shape, route: str, limits: tuple[int, int] | None = None) -> None:
+        """`limits` = (n_channels, n_poles): indices outside 0..n_channels-1 / 1..n_poles are a `CompileError`."""
         self.shape = tuple(shape)
         self.route = route
         exprs = [sp.sympify(e) for e in exprs]
@@ -218,6 +219,9 @@ class Compiled:
         keymap = {sym: _key_of(a) for a, sym in plain.items()}
         for sym in free:
             keymap[sym] = _key_of(sym)
+        if limits is not None:
+            for key in keymap.values():
+                _check_limits(key, *limits)
         self.arg_syms = sorted(keymap, key=lambda x: keymap[x])
         self.arg_keys = [keymap[x] for x in self.arg_syms]
         self.n_leaves = len(leaf_exprs)
@@ -246,9 +250,23 @@ class Compiled:
         return out.reshape((batch, *self.shape))
 
 
-def compile_matrix(matrix, route: str) -> Compiled:
+def _check_limits(key: tuple, n_channels: int, n_poles: int) -> None:
+    name, idx = key[0], key[1:]
+    ok = True
+    if name in {"m", "beta"}:
+        ok = 1 <= idx[0] <= n_poles
+    elif name in {"Gamma", "gamma"}:
+        ok = 1 <= idx[0] <= n_poles and 0 <= idx[1] < n_channels
+    elif name in {"m_a", "m_b"}:
+        ok = 0 <= idx[0] < n_channels
+    if not ok:
+        msg = f"index out of range: {name}{list(idx)} for {n_channels} channels, {n_poles} poles"
+        raise CompileError(msg)
+
+
+def compile_matrix(matrix, route: str, limits: tuple[int, int] | None = None) -> Compiled:
     matrix = sp.Matrix(matrix)
-    return Compiled(list(matrix), matrix.shape, route)
+    return Compiled(list(matrix), matrix.shape, route, limits)
 
 
 # ------------------------------------------------------------------ reference (R3)
